@@ -255,6 +255,7 @@ func doWorker(e Engine, x *Ctx, tier string, seed uint64, w, n int, out string, 
 		if c.Index%n != w || (only >= 0 && c.Index != only) {
 			continue
 		}
+		os.WriteFile(out+".cur", []byte(fmt.Sprint(c.Index)), 0o644)
 		startedAt.Store(time.Now().UnixNano())
 		current.Store(int64(c.Index))
 		t := NewTape(c.Seed)
@@ -272,6 +273,7 @@ func doWorker(e Engine, x *Ctx, tier string, seed uint64, w, n int, out string, 
 	}
 	bw.Flush()
 	f.Close()
+	os.Remove(out + ".cur")
 	return exitOK
 }
 
@@ -351,7 +353,7 @@ func coordinate(e Engine, x *Ctx, o coordOpts) int {
 		procs[w] = wproc{cmd, out}
 	}
 	infra := false
-	var hangs []int
+	var hangs, crashes []int
 	for w := range procs {
 		err := procs[w].cmd.Wait()
 		if b, herr := os.ReadFile(procs[w].out + ".hang"); herr == nil {
@@ -359,8 +361,17 @@ func coordinate(e Engine, x *Ctx, o coordOpts) int {
 			fmt.Sscan(string(b), &idx)
 			hangs = append(hangs, idx)
 		} else if err != nil {
-			fmt.Fprintf(os.Stderr, "worker %d: %v\n", w, err)
-			infra = true
+			// the process died (fatal runtime error such as stack exhaustion or out of memory,
+			// which recover() cannot catch): the case it was running is re-run alone below
+			if b, cerr := os.ReadFile(procs[w].out + ".cur"); cerr == nil {
+				var idx int
+				fmt.Sscan(string(b), &idx)
+				crashes = append(crashes, idx)
+				fmt.Fprintf(os.Stderr, "worker %d died in case %d: %v\n", w, idx, err)
+			} else {
+				fmt.Fprintf(os.Stderr, "worker %d: %v\n", w, err)
+				infra = true
+			}
 		}
 	}
 
@@ -397,16 +408,7 @@ func coordinate(e Engine, x *Ctx, o coordOpts) int {
 			if o.only >= 0 && i != o.only {
 				continue
 			}
-			isHang := false
-			for _, h := range hangs {
-				if h == i {
-					isHang = true
-				}
-			}
-			if !isHang {
-				// cases after a hang in the same worker were not run
-				missing++
-			}
+			missing++
 			continue
 		}
 		if l.Panic != "" {
@@ -468,9 +470,30 @@ func coordinate(e Engine, x *Ctx, o coordOpts) int {
 			exit = exitViolation
 		}
 	}
-	if missing > 0 && len(hangs) == 0 {
-		fmt.Fprintf(os.Stderr, "%d cases produced no result\n", missing)
-		infra = true
+	for _, h := range crashes {
+		c := plan[h]
+		rf := &ReplayFile{Property: e.ID(), Tier: o.tier, VerifSeed: o.seed, Case: c, RepoTree: o.repoTree,
+			Violation: &Violation{Class: "crash", Message: "the process running this case died with a fatal runtime error (not a recoverable panic)"}}
+		path := writeReplay(o.replayDir, rf, "")
+		cmd := exec.Command(exe, append(selfArgs(e, o), "-replay", path)...)
+		cmd.Stdout, cmd.Stderr = os.Stderr, os.Stderr
+		code := runWithTimeout(cmd, 10*time.Minute)
+		if code != exitOK && code != exitViolation && code != exitInfra {
+			fmt.Printf("VIOLATION property=%s replay=%s\n  class=crash\n", e.ID(), path)
+			violationNotes = append(violationNotes, "crash case "+fmt.Sprint(h))
+			reported++
+			exit = exitViolation
+		} else {
+			fmt.Fprintf(os.Stderr, "case %d did not crash when run alone (exit %d): inconclusive\n", h, code)
+			os.Remove(path)
+			infra = true
+		}
+	}
+	if missing > len(hangs)+len(crashes) {
+		fmt.Fprintf(os.Stderr, "%d cases were not run (their worker stopped early)\n", missing-len(hangs)-len(crashes))
+		if len(hangs)+len(crashes) == 0 {
+			infra = true
+		}
 	}
 
 	// Violations: confirm, minimise and replay each class once, in fresh processes.
@@ -711,7 +734,7 @@ func doShrink(e Engine, x *Ctx, path string) int {
 			}
 		}
 		// delete blocks
-		for size := 8; size >= 1; size /= 2 {
+		for size := 64; size >= 1; size /= 2 {
 			for i := 0; i+size <= len(best); {
 				cand := append(append([]int(nil), best[:i]...), best[i+size:]...)
 				if c, r, ok := try(cand); ok && less(trim(c), best) {
